@@ -15,7 +15,7 @@ RULE = (
     "unbind/split), 1-4 tasks each with 0-3 own leaves, leaves shared between tasks, listed-but-unused leaves, heads "
     "optionally reaching the trunk around the features; explicit or defaulted tasks_params / shared_params (defaults "
     "only when the default sets are disjoint - the overlap case belongs to C12), features passed as tensor or list, "
-    "parameter groups passed as list / tuple / generator / iterator (the signature takes Iterable[Tensor]), "
+    "optionally shared_params=[] (frozen trunk), parameter groups passed as list / tuple / generator / iterator (the signature takes Iterable[Tensor]), "
     "chunk sizes, retain_graph both ways, pre-existing .grad, aggregators incl. row-order-sensitive ones (Constant "
     "with distinct weights, Krum, pref vectors) and position coding, all wrapped in a recording aggregator. Oracle: "
     "the aggregator sees row i = sum_f dloss_i/dF_f . dF_f/dshared, computed by NumPy dual numbers with the features "
@@ -57,6 +57,7 @@ def _case(draw):
         "retain": bool(rng.integers(0, 3) == 0),
         # the signature takes Iterable[Tensor] for shared_params and for each group of tasks_params
         "containers": [["list", "list", "tuple", "generator", "iterator"][int(rng.integers(0, 5))] for _ in range(2)],
+        "frozen_trunk": bool(rng.integers(0, 8) == 0),  # shared_params=[] passed explicitly: heads-only training
     }
 
 
@@ -73,6 +74,8 @@ def plan(case):
     d_tasks = [sorted(P.leaf_deps(prog, [l], stop=feats)) for l in prog["losses"]]
     explicit_tasks, explicit_shared = case["explicit_tasks"], case["explicit_shared"]
     shared = prog["shared_leaves"] if explicit_shared else d_shared
+    if case.get("frozen_trunk") and explicit_shared:
+        shared = []
     tasks = prog["task_leaves"] if explicit_tasks else d_tasks
     overlap = bool(set(shared) & {p for t in tasks for p in t})
     return shared, tasks, overlap
@@ -158,6 +161,8 @@ def run_case(case) -> Outcome:
         out.check(False, f"mtl_backward-raises:{type(e).__name__}", str(e)[:300])
         return out
     blocks, task_upd = expected_updates(prog, dual_cut, dual_full, shared, tasks)
+    if not shared:
+        out.cls("frozen-trunk")
     if shared:
         if out.check(len(rec.calls) == 1, "aggregator-call-count", f"{len(rec.calls)} calls"):
             jdcheck.check_deposit(out, "shared", blocks, g.leaves, before, rec.calls[0], dtype, scale)
